@@ -34,6 +34,15 @@ func c11VerifyMany(pk *gabikeys.PublicKey, p *ProofD, n int) int {
 			ok++
 		}
 	}
+	if ok == 0 {
+		// the same decoded object verified again (retry; ProofD.Verify after ProofList.Verify): a rejected
+		// proof must stay rejected whatever the first verification left in the object
+		q := vsCloneProof(p).(*ProofD)
+		(ProofList{q}).Verify([]*gabikeys.PublicKey{pk}, vfContext, vfNonce, false, nil)
+		if q.Verify(pk, vfContext, vfNonce, false) || (ProofList{q}).Verify([]*gabikeys.PublicKey{pk}, vfContext, vfNonce, false, nil) {
+			ok = 1
+		}
+	}
 	return ok
 }
 
